@@ -17,6 +17,7 @@ Obligations
            them as data would break the relation; replayed through the public API)
         W5 an aggregate with a time unit whose sibling unit is supplied as data is the conversion of the
            supplied column (exhaustive over the aggregates of every function-set class)
+        W6 a third unit of a hard-coded rule follows the supplied sibling column
   B   bounded stand-in: the API computes x_y, x_m, x_w, x_d together consistently and accepts
       an input in another unit (never counted as proved)
 """
@@ -254,6 +255,42 @@ def _wiring_worker(job):
                 ok = g is not None and venv.classify_node(name, g) == "time_conversion" and list(inspect.signature(g).parameters) == [sib]
                 out["items"][str(key)] = {"name": f"W5:{name} is the conversion of the supplied column {sib}", "status": "discharged" if ok else "refuted",
                                           "detail": "" if ok else f"with {sib} in the data, {name} is {venv.classify_node(name, g) if g is not None else 'absent'} reading {list(inspect.signature(g).parameters) if g is not None else None}: {name} and {sib} no longer differ by the factor", "date": str(d)}
+        # W6: a hard-coded RULE x_u whose sibling x_v is supplied as data: a third unit x_w follows the supplied
+        # column (conversions derived from data take precedence over those derived from the rule)
+        rules6 = {}
+        for name, f in fno.items():
+            p = parse_name(name, groupings, units)
+            if p is None or venv.classify_node(name, f) != "scalar_rule":
+                continue
+            base, unit, group = p
+            others = [u for u in units if u != unit]
+            sib, third = f"{base}{others[0]}{group}", f"{base}{others[1]}{group}"
+            key = ("W6", name)
+            if key in seen or sib in data_cols or third in data_cols:
+                continue
+            if all(x not in allf or venv.classify_node(x, allf[x]) == "time_conversion" for x in (sib, third)):
+                rules6[name] = (sib, third, key)
+        if rules6:
+            import warnings
+
+            from _gettsim.functions_loader import load_and_check_functions
+
+            try:
+                with warnings.catch_warnings():
+                    warnings.simplefilter("ignore")
+                    a3, _ = load_and_check_functions(functions_raw=e.functions, targets=sorted(v[1] for v in rules6.values()), data_cols=sorted(data_cols | {v[0] for v in rules6.values()}), aggregate_by_group_specs={}, aggregate_by_p_id_specs={})
+            except Exception as ex:  # noqa: BLE001
+                a3 = None
+                out["items"][str(("W6", "load", str(d)))] = {"name": f"W6: universe with supplied sibling columns loads@{d}", "status": "unsupported", "detail": repr(ex)[:200], "date": str(d)}
+            for name, (sib, third, key) in rules6.items():
+                if a3 is None:
+                    break
+                seen.add(key)
+                out["n_checked"] += 1
+                g = a3.get(third)
+                ok = g is not None and venv.classify_node(third, g) == "time_conversion" and list(inspect.signature(g).parameters) == [sib]
+                out["items"][str(key)] = {"name": f"W6:{third} follows the supplied column {sib} (rule {name} exists)", "status": "discharged" if ok else "refuted",
+                                          "detail": "" if ok else f"with {sib} in the data, {third} is {venv.classify_node(third, g) if g is not None else 'absent'} reading {list(inspect.signature(g).parameters) if g is not None else None}: {third} and {sib} no longer differ by the factor", "date": str(d)}
         # W4: explicit (hard-coded) rules that differ in the time unit only
         by = {}
         for name, func in e.functions.items():
